@@ -347,14 +347,19 @@ def run_check(check: Check, tier: str, seed: int, budget_s: float | None = None,
 
     # timeouts: re-run alone once
     confirmed_timeouts = []
-    for idx in sorted(timeouts):
-        payload = run_one_forked(check.run, cases[idx], check.per_run_timeout_s * 2)
-        if payload.get("ok"):
-            results[idx] = payload["result"]
-        elif payload.get("timeout"):
-            confirmed_timeouts.append(idx)
-        else:
-            harness_errors.append((idx, payload.get("error", "?"), payload.get("trace", "")))
+    if timeouts:
+        # re-run (at most the 8 lowest-index) timed-out cases once more, in parallel, with twice the limit
+        retry_pool = ForkPool(slots)
+        for idx in sorted(timeouts)[:8]:
+            retry_pool.submit(idx, check.run, cases[idx], check.per_run_timeout_s * 2)
+        for idx, payload, _wall in retry_pool.drain():
+            if payload.get("ok"):
+                results[idx] = payload["result"]
+            elif payload.get("timeout"):
+                confirmed_timeouts.append(idx)
+            else:
+                harness_errors.append((idx, payload.get("error", "?"), payload.get("trace", "")))
+        confirmed_timeouts.sort()
 
     if harness_errors:
         idx, err, tr = sorted(harness_errors)[0]
